@@ -2,6 +2,8 @@ import DelbDriver.Util
 import DelbDriver.Wrap
 import DelbDriver.Whitespace
 import DelbDriver.XPath
+import DelbDriver.Compare
+import DelbDriver.Serialize
 open Lean DelbDriver
 
 def dispatch (j : Json) : Except String Json := do
@@ -10,6 +12,8 @@ def dispatch (j : Json) : Except String Json := do
   | "wrap" => handleWrap j
   | "reduce" => handleReduce j
   | "parse" => handleParse j
+  | "compare" => handleCompare j
+  | "serialize" => handleSerialize j
   | "tokenize" => handleTokenize j
   | "reduce_content" => handleReduceContent j
   | _ => throw s!"unknown cmd {cmd}"
